@@ -1302,7 +1302,13 @@ func main() {
 		case "subrouter":
 			s = fmt.Sprintf("OSubrouter %d %d %s", o.Router, o.Parent, coqStr(o.Tpl))
 		case "use":
-			s = fmt.Sprintf("OUse %d %s", o.Router, coqMw(o.Mw))
+			mw := o.Mw
+			if mw == "BasicAuth" && !(len(o.MwArgs) == 2 && strings.HasSuffix(o.MwArgs[0], "AUTH_SETTINGS.BASIC.Username") &&
+				strings.HasSuffix(o.MwArgs[1], "AUTH_SETTINGS.BASIC.Password")) {
+				// not the configured (login, password) pair, in that order: not the middleware the model describes
+				mw = "BasicAuthMiddleware(" + strings.Join(o.MwArgs, ", ") + ")"
+			}
+			s = fmt.Sprintf("OUse %d %s", o.Router, coqMw(mw))
 		case "route":
 			var mm []string
 			for _, m := range o.Methods {
